@@ -216,7 +216,8 @@ def run(ctx, run):
     from . import C19
     C19._drain_before_update(ctx, run, P.need("vbi_proxyd_take_message", UNIT))
     _client_transient_states(ctx, run)
-
+    from .. import sweep
+    sweep.run(ctx, run, ["src/proxy-client.c"], {}, 10)
 
 def _stop_before_free(ctx, run, f):
     """The exemption of vbi_proxy_stop_acquisition rests on this order."""
